@@ -153,3 +153,263 @@ def shape_of(g: dict) -> str:
         return x
 
     return digest(strip(g), 8)
+
+
+# ----------------------------------------------------------- loop template
+def loop_block(
+    rng: random.Random,
+    prefix: str,
+    *,
+    L: int | None = None,
+    N: int | None = None,
+    gate: str | None = None,
+    exit_node: bool | None = None,
+    signal: bool | None = None,
+    default_open: bool | None = None,
+) -> dict:
+    """Ring loop: b0..b{L-1} pass state s0..s{L-1}; the last body node increments and
+    produces s0 again; gate g continues while s0 < N (targets b0 / END or an exit node).
+    With ``signal`` the gate waits on a signal emitted by the last body node."""
+    L = L if L is not None else rng.randint(1, 4)
+    N = N if N is not None else rng.randint(0, 6)
+    gate = gate or rng.choice(["route", "ifelse"])
+    exit_node = rng.random() < 0.5 if exit_node is None else exit_node
+    signal = rng.random() < 0.3 if signal is None else signal
+    default_open = rng.random() < 0.7 if default_open is None else default_open
+    if signal:
+        default_open = True  # closed gate waiting on its own targets' signal cannot start (excluded, DESIGN C04)
+    s = [f"{prefix}s{i}" for i in range(L)]
+    nodes: list[dict] = []
+    for i in range(L):
+        last = i == L - 1
+        nd = {
+            "kind": "fn",
+            "name": f"{prefix}b{i}",
+            "params": [{"name": s[i]}],
+            "outs": [s[(i + 1) % L]],
+            "beh": "inc" if last else "pass",
+            "beh_param": s[i],
+        }
+        if last and signal:
+            nd["emit"] = [f"{prefix}done"]
+        nodes.append(nd)
+    tgt_exit = f"{prefix}fin" if exit_node else "@END"
+    g = {
+        "name": f"{prefix}g",
+        "params": [{"name": s[0]}],
+        "default_open": default_open,
+        "decide": {"op": "lt", "param": s[0], "value": N, "then": f"{prefix}b0", "else": tgt_exit},
+    }
+    if gate == "route":
+        g.update({"kind": "route", "targets": [f"{prefix}b0", tgt_exit]})
+    else:
+        g.update({"kind": "ifelse", "when_true": f"{prefix}b0", "when_false": tgt_exit})
+        g["decide"] = {"op": "lt", "param": s[0], "value": N, "then": True, "else": False}
+    if signal:
+        g["wait_for"] = [f"{prefix}done"]
+    nodes.append(g)
+    if exit_node:
+        nodes.append({"kind": "fn", "name": f"{prefix}fin", "params": [{"name": s[0]}], "outs": [f"{prefix}out"]})
+    return {"nodes": nodes, "seed": s[0], "L": L, "N": N, "gate": gate, "exit": exit_node, "signal": signal, "open": default_open, "state": s, "prefix": prefix}
+
+
+# --------------------------------------------------------- general programs
+def gen_feats(rng: random.Random) -> dict:
+    return {k: rng.random() < 0.5 for k in ("gates", "loops", "nested", "maps", "signals", "edge_defaults")}
+
+
+def gen_program(
+    rng: random.Random,
+    *,
+    depth: int = 2,
+    feats: dict | None = None,
+    prefix: str = "",
+    avail_in: list[str] | None = None,
+    max_nodes: int = 7,
+    name: str | None = "top",
+    force_param: str | None = None,
+) -> dict:
+    """General program: DAG + gates + loop blocks + nested / mapped graph nodes + signals.
+
+    The returned spec carries ``ext`` (external int names), ``lists`` (names that must
+    receive lists) and ``seeds`` (loop entry values), collected over all nesting levels.
+    """
+    feats = feats if feats is not None else gen_feats(rng)
+    own_ext = [f"{prefix}i{k}" for k in range(rng.randint(1, 3))]
+    defaults: dict[str, int] = {e: mix("def", e) % 1000 for e in own_ext if rng.random() < 0.4}
+    used_by_inner: list[str] = []
+    picked = []
+    if avail_in:
+        picked = rng.sample(avail_in, min(len(avail_in), rng.randint(0, 2)))
+    ext = list(own_ext)
+    lists: list[str] = []
+    seeds: list[str] = []
+    avail = picked + own_ext
+    if force_param:
+        avail.append(force_param)
+    nodes: list[dict] = []
+    slots = rng.randint(1, max_nodes)
+    gates: list[tuple[int, dict]] = []
+    first_fn = True
+    for i in range(slots):
+        r = rng.random()
+        kind = "fn"
+        if feats["gates"] and r < 0.18 and i < slots - 1:
+            kind = "gate"
+        elif feats["nested"] and depth > 0 and 0.18 <= r < 0.30:
+            kind = "nested"
+        elif feats["maps"] and depth > 0 and 0.30 <= r < 0.38:
+            kind = "map"
+        elif feats["loops"] and 0.38 <= r < 0.46:
+            kind = "loop"
+        if kind == "fn":
+            k = rng.randint(0, min(3, len(avail)))
+            params = rng.sample(avail, k)
+            if force_param and first_fn and force_param not in params:
+                params.append(force_param)
+            first_fn = False
+            nout = rng.choice([0, 1, 1, 1, 2])
+            outs = [f"{prefix}o{i}_{j}" for j in range(nout)]
+            nodes.append({"kind": "fn", "name": f"{prefix}n{i}", "params": [{"name": p} for p in params], "outs": outs, "_slot": i})
+            avail += outs
+        elif kind == "gate":
+            k = rng.randint(1, min(2, len(avail)))
+            g = {"name": f"{prefix}r{i}", "params": [{"name": p} for p in rng.sample(avail, k)], "_slot": i, "default_open": rng.random() < 0.6}
+            gates.append((len(nodes), g))
+            nodes.append(g)
+        elif kind in ("nested", "map"):
+            mname = f"{prefix}m{i}" if kind == "map" else None
+            inner = gen_program(
+                rng,
+                depth=depth - 1,
+                feats=feats if kind == "nested" else {**feats, "loops": False},
+                prefix=f"{prefix}g{i}_",
+                avail_in=[a for a in avail if a not in lists and a not in defaults],
+                max_nodes=4,
+                name=f"{prefix}g{i}",
+                force_param=mname,
+            )
+            node = {"kind": "graph", "name": f"{prefix}g{i}", "graph": inner, "_slot": i}
+            inner_outs = program_outputs(inner)
+            if kind == "map":
+                node["map_over"] = [mname]
+                node["map_mode"] = "zip"
+                node["error_handling"] = rng.choice(["raise", "continue"])
+                lists.append(mname)
+                lists += inner_outs
+            ext += [e for e in inner["ext"] if e not in ext]
+            used_by_inner += inner["picked"]
+            lists += [x for x in inner["lists"] if x not in lists]
+            seeds += inner["seeds"]
+            nodes.append(node)
+            avail += inner_outs
+        elif kind == "loop":
+            blk = loop_block(rng, f"{prefix}L{i}", L=1 if prefix else None)
+            for nd in blk["nodes"]:
+                nd["_slot"] = i
+                nd["blk"] = blk["prefix"]
+                nodes.append(nd)
+            seeds.append(blk["seed"])
+            if blk["exit"]:
+                avail.append(f"{prefix}L{i}out")
+    if force_param and first_fn:
+        nodes.append({"kind": "fn", "name": f"{prefix}nf", "params": [{"name": force_param}], "outs": [f"{prefix}of"], "_slot": slots})
+    # gate targets: later non-gate nodes of this graph
+    for idx, g in gates:
+        later = [nd["name"] for nd in nodes[idx + 1 :] if nd.get("kind") in ("fn", "graph") and not nd.get("blk")]
+        if not later:
+            g.update({"kind": "route", "targets": ["@END"], "decide": {"op": "const", "value": "@END"}})
+            continue
+        style = rng.choice(["route", "route", "multi", "ifelse"])
+        tg = rng.sample(later, min(len(later), rng.randint(1, 3)))
+        if style == "ifelse":
+            a = tg[0]
+            b = tg[1] if len(tg) > 1 else "@END"
+            g.update({"kind": "ifelse", "when_true": a, "when_false": b, "decide": {"op": "mod", "choices": [True, False]}})
+        elif style == "multi":
+            choices = [[], tg[:1], tg] + ([tg[1:]] if len(tg) > 1 else [])
+            g.update({"kind": "route", "targets": tg, "multi": True, "decide": {"op": "mod", "choices": choices}})
+        else:
+            targets = tg + (["@END"] if rng.random() < 0.4 else [])
+            choices = list(targets) + ([None] if rng.random() < 0.2 else [])
+            g.update({"kind": "route", "targets": targets, "decide": {"op": "mod", "choices": choices}})
+    # ordering signals between an earlier producer and a later waiter
+    if feats["signals"]:
+        cand = [nd for nd in nodes if nd["kind"] in ("fn", "route", "ifelse") and not nd.get("blk")]
+        for _ in range(rng.randint(0, 2)):
+            if len(cand) < 2:
+                break
+            a, b = sorted(rng.sample(range(len(cand)), 2))
+            sig = f"{prefix}sig{a}_{b}"
+            if sig in cand[a].get("emit", []):
+                continue
+            cand[a].setdefault("emit", []).append(sig)
+            cand[b].setdefault("wait_for", []).append(sig)
+    # defaults: by name, consistent across consumers of this graph level
+    if feats["edge_defaults"]:
+        for nd in nodes:
+            if nd["kind"] == "fn" and not nd.get("blk"):
+                for o in nd["outs"]:
+                    if rng.random() < 0.12 and o not in used_by_inner:
+                        defaults[o] = mix("def", o) % 1000
+    for nd in nodes:
+        if nd["kind"] in ("fn", "route", "ifelse") and not nd.get("blk"):
+            for p in nd["params"]:
+                if p["name"] in defaults:
+                    p["default"] = defaults[p["name"]]
+    for nd in nodes:
+        nd.pop("_slot", None)
+    order = list(range(len(nodes)))
+    rng.shuffle(order)
+    return {"name": name, "nodes": nodes, "order": order, "ext": ext, "lists": lists, "seeds": seeds, "own_ext": own_ext, "picked": picked}
+
+
+def program_outputs(g: dict) -> list[str]:
+    """Data output names a graph spec exposes (all levels bubble up; select narrows)."""
+    outs: list[str] = []
+    for nd in g["nodes"]:
+        if nd["kind"] in ("fn", "interrupt"):
+            outs += nd.get("outs", [])
+        elif nd["kind"] == "graph":
+            sub = program_outputs(nd["graph"])
+            ren = {}
+            for step in nd.get("renames", []):
+                ren.update(step.get("outputs", {}))
+            outs += [ren.get(o, o) for o in sub]
+    if g.get("select"):
+        outs = [o for o in outs if o in g["select"]]
+    return outs
+
+
+def program_inputs(rng: random.Random, g: dict, *, list_len: tuple[int, int] = (0, 4)) -> dict:
+    provide: dict[str, Any] = {}
+    for e in g["ext"]:
+        if e in g["lists"]:
+            continue
+        provide[e] = mix("p", e)
+    for m in mapped_params(g):
+        n = rng.randint(*list_len)
+        provide[m] = [mix("m", m, j) % 100000 for j in range(n)]
+    for s in g["seeds"]:
+        provide[s] = 0
+    omit = [e for e in g["ext"] if rng.random() < 0.4]
+    return {"provide": provide, "omit": omit}
+
+
+def mapped_params(g: dict) -> list[str]:
+    out: list[str] = []
+    for nd in g["nodes"]:
+        if nd["kind"] == "graph":
+            out += nd.get("map_over") or []
+            out += mapped_params(nd["graph"])
+    return out
+
+
+def fn_nodes(g: dict) -> list[tuple[dict, int]]:
+    out = []
+    for nd in g["nodes"]:
+        if nd["kind"] == "fn":
+            out.append((nd, 0))
+        elif nd["kind"] == "graph":
+            out += [(n, d + 1) for n, d in fn_nodes(nd["graph"])]
+    return out
